@@ -2,6 +2,7 @@
 From RJ Require Import Base.Prelude Base.OrderedPlan Model.Settings Model.Core Model.Fs Model.Paths Model.Sync Model.SyncTop
   Spec.PlanSpec Spec.Mirror Proofs.FsProofs Proofs.ExecProofs Proofs.DryProofs Proofs.ConfineProofs Proofs.MirrorProofs
   Proofs.QuietProofs Proofs.ConfinedMain Proofs.InstanceProofs Proofs.BlockProofs Proofs.ConfineAll Proofs.RepairMain.
+From RJ Require Model.Walker Proofs.WalkBridge Proofs.WalkedSync.
 
 (* In protocol terms: whatever the arguments, outcome, answers given to prompts or faults met, the
    source-side doer is only ever asked to report its root, list entries and read file contents ... *)
@@ -69,6 +70,15 @@ Theorem C02_executable_never_through : forall cfg S D a ans bits ex ft,
   no_through (d_events (r_dest (run_top cfg S D a ans bits ex ft))).
 Proof. exact run_top_never_through. Qed.
 
+(* ... and with the listing premises discharged by the directory walk (C17, Proofs/WalkBridge.v): given on each
+   side whatever any execution of the N-worker walk over that side's tree delivers, NO run resolves a path
+   through a destination symlink. *)
+Theorem C02_walked_never_through : forall now_z incl normalize chunker cfg S D ans bits ls ld ft,
+  wf_fs S -> wf_fs (d_fs D) -> no_through (d_events D) ->
+  WalkedSync.walked now_z incl normalize S ls -> WalkedSync.walked now_z incl normalize (d_fs D) ld ->
+  no_through (d_events (r_dest (sync_one now_z normalize chunker cfg S D ans bits ls ld ft))).
+Proof. exact WalkedSync.walked_sync_never_through. Qed.
+
 (* A dry run leaves the whole destination world as it is (C05), in particular its event log. *)
 Theorem C02_dry_run_confined : forall now_z normalize chunker cfg S D ans bits ls ld ft,
   cf_dry cfg = true -> r_dest (sync_one now_z normalize chunker cfg S D ans bits ls ld ft) = D.
@@ -116,3 +126,4 @@ From RJ Require Import Gen.Facts_sites.
 From Coq Require Import String.
 Theorem C02_src_sites_read_only : impl_src_sends = Facts_sites.flit "GetEntries,GetFileContent,SetRoot"%string.
 Proof. reflexivity. Qed.
+Print Assumptions C02_walked_never_through.
